@@ -360,7 +360,7 @@ def run(ctx) -> None:
                     await run_one(ctx, prefix + "".join(tail) + "e", idx)
         ctx.exhaustive_parts[f"all histories of depth {depth} after each of 3 prefixes"] = True
         rng = ctx.rng("C12.random")
-        for k in range(ctx.pick(3000, 40000) // ctx.nshards):
+        for k in range(ctx.pick(3000, 200000) // ctx.nshards):
             n = rng.randint(10, 40)
             actions = "".join(rng.choice("aabcuvllxrDDSZOeeetpfmnjq") for _ in range(n))
             await run_one(ctx, actions, ("rand", ctx.shard, k))
